@@ -1,4 +1,4 @@
-//go:build verif && !verif_nounitcost
+//go:build verif && verif_nounitcost
 
 package processor
 
@@ -7,7 +7,8 @@ import (
 	chf_context "github.com/free5gc/chf/internal/context"
 )
 
-// VerifGetUnitCost exposes the CHF-side tariff decoding to the verification harness.
+// VerifGetUnitCost, stand-in used when the tree's tariff decoding helper no longer has the signature
+// getUnitCost(ue, rg, sur) uint32 (the harness is then built with -tags verif,verif_nounitcost): not available.
 func VerifGetUnitCost(ue *chf_context.ChfUe, rg int32, sur *charging_datatype.ServiceUsageRequest) (uint32, bool) {
-	return getUnitCost(ue, rg, sur), true
+	return 0, false
 }
